@@ -2,7 +2,7 @@
    Part (a): the glob-style pattern language.  Only statements, each closed by
    [exact]; the proofs are in Proofs/GlobProofs.v. *)
 From Coq Require Import List NArith Bool.
-From PTA Require Import Sx Glob GlobProofs.
+From PTA Require Import Sx Glob GlobProofs Names Graph Search Scan NamesProofs SearchProofs GraphProofs ScanProofs.
 Import ListNotations.
 Open Scope N_scope.
 
@@ -39,6 +39,38 @@ Theorem C08_glob_both_stars : forall t s, no_newline s ->
   (glob_match (STAR :: t ++ [STAR]) s = true <-> exists pre post, s = pre ++ t ++ post).
 Proof. exact glob_infix. Qed.
 Print Assumptions C08_glob_both_stars.
+
+(* Part (b): the tree.  With the exclusion predicate abstract, the modules of a scan are exactly the .py files
+   and directories none of whose ancestors-or-self (down from the starting directory) is excluded: an excluded
+   file or directory, and everything below an excluded directory, contributes no module; every other one does. *)
+Theorem C08_scan_modules : forall (comp : Type) excl (root : comp) (n : @fsnode comp) path m,
+  In m (fst (walk excl root path n)) <->
+  exists p, In (p, true) (node_paths n) /\ m = root :: path ++ p /\ not_excluded_below excl path p.
+Proof. exact @walk_modules. Qed.
+Print Assumptions C08_scan_modules.
+
+(* ... and only files that are such modules are parsed, so nothing below an excluded path contributes an import *)
+Theorem C08_scan_files : forall (comp : Type) excl (root : comp) (n : @fsnode comp) path u body,
+  In (u, body) (snd (walk excl root path n)) -> In u (fst (walk excl root path n)).
+Proof. exact @walk_files. Qed.
+Print Assumptions C08_scan_files.
+
+(* K2 (known finding): "every import between two remaining modules is exactly as in the scan without that pattern"
+   fails for 'from P import n' when P/n is excluded: proj/m.py contains 'from proj.pkg import n'; excluding
+   proj/pkg/n.py turns the import m -> proj.pkg.n into m -> proj.pkg, an import between two remaining modules
+   that the unfiltered scan does not have.  (C02 demands P.n when scanned and P otherwise.) *)
+Theorem C08_from_import_refuted :
+  exists (tree : list (@fsnode N)) ex,
+    let cfg := fun e => {| sc_root := 1%N; sc_tree := tree; sc_mp := []; sc_excl := e; sc_exclude_external := true;
+                           sc_ext_excl := fun _ => false; sc_has_ext_excl := false; sc_limit := None |} in
+    option_map (fun r => imps (sr_graph r)) (scan N.eqb (cfg (fun _ => false))) = Some [([1;2], [1;3;4])]%N /\
+    option_map (fun r => imps (sr_graph r)) (scan N.eqb (cfg ex)) = Some [([1;2], [1;3])]%N.
+Proof.
+  exists [FFile 2 true [SFrom 0 (Some [1;3]) [4]]; FDir 3 [FFile 4 true []]]%N,
+         (fun p => match p with [3;4]%N => true | _ => false end).
+  split; vm_compute; reflexivity.
+Qed.
+Print Assumptions C08_from_import_refuted.
 
 (* non-vacuity: "*a.b+" against "/x/a.b+" and against "/x/aXb+" (the dot is literal) *)
 Example C08_glob_example :
